@@ -441,7 +441,23 @@ func (fr *Frame) applyContract(ct *Contract, sig *types.Signature, names []strin
 		}
 		g := env.evalGoal(rq.E).T()
 		short := calleeKey[strings.LastIndex(calleeKey, ".")+1:]
-		fr.oblige("pre", fmt.Sprintf("%s.%s@L%d", short, lbl, line), g, rq.Props, pos, "requires "+rq.Src+" of "+calleeKey)
+		// a precondition tagged for property P is checked at this call only if the calling function is
+		// claimed for P as a whole (function-level props); a function that merely carries a clause tagged
+		// P stays an un-claimed caller of that precondition, as it was before the clause was added
+		props := rq.Props
+		if len(props) > 0 && fr.top.contract != nil {
+			var keep []string
+			for _, p := range props {
+				if hasProp(fr.top.contract.Props, p) {
+					keep = append(keep, p)
+				}
+			}
+			if len(keep) == 0 {
+				keep = []string{"-"}
+			}
+			props = keep
+		}
+		fr.oblige("pre", fmt.Sprintf("%s.%s@L%d", short, lbl, line), g, props, pos, "requires "+rq.Src+" of "+calleeKey)
 		vc.assume(fr.curR, g)
 	}
 	pre := fr.cur.heap
